@@ -86,6 +86,7 @@ pcgstrf_snode_dfs(
     xlsub[jcol] = ito;
 #ifdef SLU_MT_VERIF
     SLUV_EVENT(SLUV_E_LSUB_ALLOC, pnum, jcol, ito, 2*nextl, 0, 0);
+    SLUV_YIELD(SLUV_Y_LSUB_FILL);
 #endif /* SLU_MT_VERIF */
     lsub        = Glu->lsub;
     for (ifrom = 0; ifrom < nextl; ++ifrom)
